@@ -451,7 +451,7 @@ def run_pass(world, pspec, vector):
         "stats": stats,
         "sched": {"digest": sched.digest(), "points": sched.npoints, "switches": sched.nswitch,
                   "switches_inop": sched.nswitch_inop, "capped": sched.capped, "quiescent": sched.nquiescent,
-                  "diverged": policy.diverged, "unblocked": sched.unblocked},
+                  "diverged": policy.diverged, "unblocked": sched.unblocked, "lockwaits": sched.nlockwaits},
         "errors": list(sched.errors),
         "stall": stall,
         "lib_calls": faults.counters.lib_calls,
